@@ -101,11 +101,14 @@ PROPS = {
                  "controls, quotes, non-ASCII spaces, nonce-cookie shaped values with multi-byte characters across byte "
                  "offsets 9..13) at boundary lengths around 0/508/509/763; every is_*/as_* accessor on every attribute "
                  "kind; sequences build -> clone -> mutate either copy -> read both for PasswordAlgorithms, "
-                 "UnknownAttributes, StunAttributes (rendering of the untouched copy compared). expect_* accessors are "
-                 "excluded as documented. Non-trivial = every case; distinct = hash of the argument."),
+                 "UnknownAttributes, StunAttributes (rendering of the untouched copy compared); comparison / ordering / AsRef / "
+                 "From / TryFrom impls of every integer and string attribute macro instantiation, Cookie and StunError in both "
+                 "operand orders. expect_* accessors are called on the matching kind only (mismatch panics are documented) and "
+                 "otherwise excluded. Non-trivial = every case; distinct = hash of the argument."),
         "assumptions": ["API table written by hand from the pub fn listing of stun-rs/src; uncovered public functions "
                         "are listed in coverage.uncovered_pub_fns"],
-        "min_counters": {"api.calls": 100000, "clone.PasswordAlgorithms": 500, "clone.UnknownAttributes": 500,
+        "min_counters": {"api.calls": 100000, "api.integer attribute traits": 1000, "api.string attribute traits": 1000,
+                         "api.error value traits": 1000, "api.StunAttribute::expect_* (matching kind)": 30000, "clone.PasswordAlgorithms": 500, "clone.UnknownAttributes": 500,
                          "clone.StunAttributes": 500},
     },
     "C18": {
@@ -138,6 +141,11 @@ PROPS = {
                  "for larger) and after compound faults (the same mask on two bytes 4k apart / adjacent - all such MAC "
                  "pairs when exhaustive -, MAC + prefix pairs, swapped MAC bytes), NOT accepted under keys differing in one character of password/user/realm, the other "
                  "derivation algorithm or the other mechanism; reference-appended SHA256/FINGERPRINT must not invalidate. "
+                 "Stream any-order-acceptance: reference-built messages whose tail is any permutation of a subset of "
+                 "{MI, SHA256, FINGERPRINT} (ordinary attributes interleaved), each integrity attribute the RFC MAC under "
+                 "the decoder's key, one MAC bit flipped, or made under another key, decoded with every validating option "
+                 "set (key+validation, with/without unknown-data and not_ignore): a successful decode must not contain an "
+                 "integrity attribute that is not the MAC under the decoder's key. "
                  "Non-trivial = every message (all carry integrity); distinct = hash of encoded bytes."),
         "assumptions": [STABLE + "; one third of the keys additionally use non-ASCII spaces and base+combining-mark "
                         "pairs and canonical singletons (U+212B, U+2126, U+212A, U+F900, ...) whose OpaqueString mapping (space -> "
@@ -145,7 +153,8 @@ PROPS = {
                         "boundary (63/64/65/66, 127-129, 200 bytes)",
                         "a random 160/256-bit MAC collision is treated as impossible"],
         "min_counters": {"faults.rejected": 100000, "faults.compound-rejected": 20000, "wrong-key.rejected": 1000, "untampered.accepted": 1000,
-                         "appended.still-valid": 300, "vectors.accepted": 5},
+                         "appended.still-valid": 300, "vectors.accepted": 5,
+                         "any-order.decode-ok": 2000, "any-order.decode-refused": 2000, "any-order.good-integrity-returned": 1000},
     },
     "C16": {
         "title": "Stream reassembly yields the same packets however the stream is chunked",
@@ -225,14 +234,16 @@ PROPS = {
         "profiles": ["dev"],
         "rule": SIMRULE + ("C15 oracle: double-precision RFC 6298 reference (first sample SRTT=R, RTTVAR=R/2; then RTTVAR before "
                  "SRTT; RTO = SRTT + max(G, 4*RTTVAR); alpha 1/8, beta 1/4), fed with R of every request completed by a "
-                 "response without retransmission, reset when the gap between consecutive request instants exceeds 600 s; "
+                 "response (delivered, or refused / challenged by the credential mechanism: Retry, DoNotRetry, ProtectionViolated; "
+                 "one history in five runs the short-term, one in five the long-term mechanism) without retransmission, reset when the gap between consecutive request instants exceeds 600 s; "
                  "compared with the RTO in force for every new request (hook) within 1e-5 relative + 1 us and with the first "
                  "notified interval (boundary). Histories of 400-1200 operations, delays 1 us..beyond the first "
                  "retransmission, idle gaps 599.99-600.01 s and 601-700 s, RTO 0.1-3 s, granularity 1 us-50 ms. Histories in "
                  "which a zero-length response time occurs are excluded from comparison from that point. Non-trivial = >=5 "
                  "requests."),
         "assumptions": ["tolerance as stated by the property (implementation computes in single precision)"],
-        "min_counters": {"c15.rto-compared": 5000, "c15.samples": 3000, "c15.stale-resets": 50},
+        "min_counters": {"c15.rto-compared": 5000, "c15.samples": 3000, "c15.stale-resets": 50,
+                         "c15.samples.completed-by.delivered": 2000, "c15.samples.completed-by.retry": 200},
     },
     "C17": {
         "title": "A rejected buffer changes nothing",
